@@ -609,9 +609,9 @@ func (a c07PlainSUT) dup(pn c07pn) bool { return a.tr.IsPotentiallyDuplicate(pn)
 func (a c07PlainSUT) recv(pn c07pn, ecn protocol.ECN, _ monotime.Time, ae bool) error {
 	return a.tr.ReceivedPacket(pn, ecn, ae)
 }
-func (a c07PlainSUT) ignore(c07pn)                                {}
-func (a c07PlainSUT) ack(monotime.Time, bool) *wire.AckFrame      { return a.tr.GetAckFrame() }
-func (a c07PlainSUT) alarm() monotime.Time                        { return 0 }
+func (a c07PlainSUT) ignore(c07pn)                           {}
+func (a c07PlainSUT) ack(monotime.Time, bool) *wire.AckFrame { return a.tr.GetAckFrame() }
+func (a c07PlainSUT) alarm() monotime.Time                   { return 0 }
 
 type c07HandlerSUT struct {
 	h     *ReceivedPacketHandler
